@@ -87,7 +87,7 @@ ANG_ATOL_DEG = 1e-7
 def plan(tier):
     if tier == 'thorough':
         return dict(shards=16, cases=1500, timeout=2400, budget_s=540)
-    return dict(shards=8, cases=75, timeout=600, budget_s=65)
+    return dict(shards=8, cases=70, timeout=600, budget_s=60)
 
 
 # ----------------------------------------------------------------------
